@@ -60,8 +60,14 @@ def serialize_vlen_property_data(
         data.append(element.ravel())
         offset += np.asarray(element.shape).prod()
 
+    if len(encoded_values) > 0:
+        encoded_arr = np.asarray(encoded_values, dtype=np.uint64)
+    else:
+        # no elements: an empty (N, ndim + 1) table, with the default ndim of 1
+        encoded_arr = np.empty((0, 2), dtype=np.uint64)
+
     return (
-        np.asarray(encoded_values, dtype=np.uint64),
+        encoded_arr,
         missing,
         np.concatenate(data) if len(data) > 0 else np.array([], dtype="int64"),
     )
